@@ -8,6 +8,7 @@ import (
 	"fmt"
 	"os"
 	"path/filepath"
+	"reflect"
 	"sort"
 	"sync"
 )
@@ -43,7 +44,41 @@ func NewTrace(path string) (*Trace, error) {
 	return &Trace{f: f, w: bufio.NewWriterSize(f, 1<<20), maxSamp: 3, sampleEv: 40, distinct: map[string]struct{}{}}, nil
 }
 
+// noNull replaces nil slices/maps/interfaces by empty arrays: TLC's Json module cannot read null.
+func noNull(v any) any {
+	if v == nil {
+		return []any{}
+	}
+	switch x := v.(type) {
+	case M:
+		if x == nil {
+			return M{}
+		}
+		for k, e := range x {
+			x[k] = noNull(e)
+		}
+		return x
+	case []any:
+		if x == nil {
+			return []any{}
+		}
+		for i, e := range x {
+			x[i] = noNull(e)
+		}
+		return x
+	}
+	rv := reflect.ValueOf(v)
+	switch rv.Kind() {
+	case reflect.Slice, reflect.Map, reflect.Pointer, reflect.Interface:
+		if rv.IsNil() {
+			return []any{}
+		}
+	}
+	return v
+}
+
 func (t *Trace) emit(m M) {
+	noNull(m)
 	b, err := json.Marshal(m)
 	if err != nil {
 		panic(fmt.Sprintf("trace: cannot marshal %v: %v", m, err))
